@@ -178,3 +178,20 @@ Proof.
   intros Hk Hr H. pose proof (receive_spec (remove_id id t) fresh m k Hk) as S.
   rewrite (remove_id_lookup id t k H), Hr in S. exact S.
 Qed.
+
+
+(* an answer that arrives while the caller is still inside send is handed to the transaction *)
+Lemma early_response_delivered k id r :
+  tsx_client_registers_before_send = true -> key_of r = Some k -> m_is_request r = false ->
+  snd (run (client_send_events k id [r] [])) = [(None, 1%N); (Some (ToTsx id true), 1%N)].
+Proof.
+  intros G Hk Hr. unfold client_send_events. rewrite G. cbn [map app]. unfold run. cbn [fold_left step].
+  unfold receive. rewrite Hk. cbn [lookup e_key]. rewrite key_eqb_refl. cbn [e_ack_filter e_owner e_id andb].
+  rewrite Hr. reflexivity.
+Qed.
+
+(* registered only after the send has returned, the same answer is dropped as an orphan *)
+Lemma late_registration_drops (k : key) r :
+  key_of r = Some k -> m_is_request r = false ->
+  fst (step ([], 1000) (Recv r)) = ([], 1001) /\ snd (step ([], 1000) (Recv r)) = Some Orphan.
+Proof. intros Hk Hr. cbn [step]. unfold receive. rewrite Hk. cbn [lookup]. rewrite Hr. split; reflexivity. Qed.
